@@ -28,6 +28,9 @@ TRUSTED = [
     'scipy.ndimage.label (detection oracle), sklearn DBSCAN via cluster.regroup_dbscan (grouping when regroup is on), numpy, uuid4',
     'binary64 rounding is not modelled: catalogue values are read as exact rationals; pa += 180 on |pa| >= 2^53 would not '
     'terminate in floats although it does over Q',
+    'command line glue AegeanTools/CLI/aegean.py (argument parsing, defaults, option -> keyword mapping, argument order, output '
+    'naming) is not modelled in Coq; it is tied on every run by tools/harness/cli_cases.py: aegean command lines (blind with --table in csv / fits / vot, --seedclip != --floodclip, --maxsummits, --island, --beam, --forcerms / --forcebkg, --cores; --priorized 1-3 with --input, --ratio 1 / 1.25 / none, --noregroup, --regroup-eps, --nocov) run in subprocesses and '
+    'the files they write equal, bit for bit (tables apart from uuids), those of the library call that --help and the docstrings promise',
 ]
 ASSUMPTIONS = [
     'valid image: 2-D float image with BMAJ/BMIN, celestial WCS (SIN / TAN; CDELT, rotated CDi_j or PCi_j + CDELT), constant rms '
@@ -640,6 +643,9 @@ def run(ctx, model_ok=True):
     ctx.hyp['scipy.ndimage.label detection = islands reported in the island rows'] = sum(len(i[2]) for i in run_.isl)
     ctx.hyp['cluster.regroup_dbscan groups = groups used by priorized_fit_islands (numbering correspondence)'] = \
         sum(1 for n in run_.numcases if n[3]['regroup'])
+    # ---- command line tie: the argument glue of AegeanTools/CLI vs the library call that --help promises
+    from harness import cli_cases
+    cli_cases.hook(ctx, cli_cases.aegean_table_cli, 'aegean')
 
 
 def widefield(ctx, run_):
@@ -902,6 +908,9 @@ def replay(ctx, obj):
         for b in obj.get('broken', []):
             print('  ', b.get('what'), str(b.get('detail', b.get('case', '')))[:400])
         return 1
+    if fi.get('kind') == 'cli':
+        from harness import cli_cases
+        return cli_cases.replay_cli(ctx, fi)
     kind = fi.get('kind')
     if kind in ('catalogue', 'raise', 'islands', 'repro'):
         job = fi['job']
